@@ -20,12 +20,15 @@ for d in sorted(glob.glob("/verif/seeded/*/meta.json")):
 os.makedirs(f"/tmp/seedprompts{rnd}", exist_ok=True)
 EXTRA = """
 
-THIS ROUND: deliver TWO independent regressions instead of one, in two DIFFERENT functions (preferably different files) and of different kinds. Each must satisfy all requirements on its own (applied alone: test-suite summary unchanged, its own demo fails with it and passes without it). Name the files {WT}/patch1.diff + {WT}/demo1.py and {WT}/patch2.diff + {WT}/demo2.py (each patch is a diff against the UNMODIFIED tree; produce patch2 after reverting patch1). Leave the worktree with NEITHER patch applied at the end. Many regressions have already been tried for this property (list below), so the obvious places are taken: look for code paths that are reached only through a rarely used keyword argument or API entry point, through a particular combination of two features, through a second operation on the same object or folder, through unusual-but-valid values (None, empty, single-element, negative, duplicated, very long names, names that are prefixes of each other), or through helper functions shared with other features. Prefer silent wrong results over exceptions."""
+THIS ROUND: deliver TWO independent regressions instead of one, in two DIFFERENT functions (preferably different files) and of different kinds. Each must satisfy all requirements on its own (applied alone: test-suite summary unchanged, its own demo fails with it and passes without it). Name the files {WT}/patch1.diff + {WT}/demo1.py and {WT}/patch2.diff + {WT}/demo2.py (each patch is a diff against the UNMODIFIED tree; produce patch2 after reverting patch1). Leave the worktree with NEITHER patch applied at the end. Many regressions have already been tried for this property (list below), so the obvious places are taken: look for code paths that are reached only through a rarely used keyword argument or API entry point, through a particular combination of two features, through a second operation on the same object or folder, through unusual-but-valid values (None, empty, single-element, negative, duplicated, very long names, names that are prefixes of each other), or through helper functions shared with other features. Prefer silent wrong results over exceptions. Good candidates: a plausible-looking performance optimisation (memoisation without invalidation, a fast path, a read cache, an early exit, a cheaper comparison), state that outlives one call (module-level or attribute caches, objects shared between copies), and behaviour that depends on the relative order of two operations."""
 for c in ids or sorted(props):
     p = props[c]
     text = f"[{c}] {p['title']}\n\n{p['statement']}\n\nQuantified over: {p['quantifier']['text']}\n\nAnchors: " + json.dumps(p["anchors"]["mechanism"])
     s = (tmpl + EXTRA).replace("{WT}", f"/tmp/wt{rnd}-{c}").replace("{PROPERTY}", text)
     s += ("\n\nRegressions already produced by others for this property (do NOT repeat these; pick different locations AND different "
           "kinds of mistake):\n" + "\n".join(" - " + x for x in prev.get(c, [])))
+    others = [f"{k}: {x}" for k in sorted(prev) if k != c for x in prev[k]]
+    s += ("\n\nRegressions already produced for OTHER properties of the same library (an identical change cannot be accepted "
+          "again, whichever property it was made for):\n" + "\n".join(" - " + x for x in others))
     open(f"/tmp/seedprompts{rnd}/{c}.txt", "w").write(s)
 print(f"/tmp/seedprompts{rnd}: {len(ids or props)} prompts")
